@@ -9,6 +9,9 @@ R8.1 [AVN, law, random interpretation with the axiom sqrt(x)^2 = x] for symbolic
 R8.2 [AVN, provenance with opaque callees] the q, qd that spring / positional pipeline.step (and
      init) report are kinematics.inverse(world_to_joint(x, xd)) of exactly the x, xd stored in the
      same returned state, and the stored j, jd, a_p, a_c are those values.
+R8.3 [spec] the scan.py primitives forward / inverse are built on (tree, link_types, _take) meet their
+     gather / scatter specification for every topology and index list of the bounded universe
+     (shared with C01 R1.2).
 """
 import os
 
@@ -158,3 +161,5 @@ def r8_2(U, rep):
 def run(U, rep, tier):
   r8_1(U, rep, tier)
   r8_2(U, rep)
+  from braxlint.props import c01
+  c01.scan_spec(U, rep, tier, rule='R8.3')
